@@ -269,6 +269,217 @@ def protocol_tie(run, rnd, n):
     return None
 
 
+# --------------------------------------------------------------------------------------------------- whole-program tie
+class _PG(object):
+    """random jump-free pure programs over the T / P / R world, as Python source and as a term of the concrete language of
+    coq/Ctrl/TracingProgExec.v (cblock); reads only definitely assigned names; loop header sets by fixpoint iteration of the
+    same structural liveness the Coq model defines (Coq re-checks them: chk_b)"""
+
+    def __init__(self, rnd):
+        self.r = rnd
+        self.k = 0
+        self.nloop = 0
+
+    def key(self):
+        self.k += 1
+        return self.k
+
+    def reads(self, defined):
+        d = sorted(defined)
+        return self.r.sample(d, min(len(d), self.r.randint(0, 3)))
+
+    def block(self, defined, depth, budget):
+        """-> (list of statements, definitely-defined set after)"""
+        out = []
+        n = self.r.randint(1, 3)
+        for _ in range(n):
+            if budget[0] <= 0:
+                break
+            budget[0] -= 1
+            c = self.r.choice(['asg', 'asg', 'asg', 'if', 'while', 'for'] if depth < 3 else ['asg'])
+            if c == 'asg':
+                t = self.r.choice(['x', 'y', 'z', 'w'])
+                out.append(('asg', self.key(), self.reads(defined), t))
+                defined = defined | {t}
+            elif c == 'if':
+                k, rd = self.key(), self.reads(defined)
+                b1, d1 = self.block(defined, depth + 1, budget)
+                b2, d2 = self.block(defined, depth + 1, budget) if self.r.random() < 0.6 else ([], defined)
+                if not b1:
+                    b1 = [('asg', self.key(), self.reads(defined), 'x')]
+                    d1 = defined | {'x'}
+                out.append(('if', k, rd, b1, b2))
+                defined = d1 & d2
+            elif c == 'while':
+                self.nloop += 1
+                cnt = 'n%d' % self.nloop
+                out.append(('const', cnt, 0))
+                defined = defined | {cnt}
+                k, rd = self.key(), self.reads(defined)
+                body, _ = self.block(defined, depth + 1, budget)
+                out.append(('while', cnt, self.r.randint(1, 3), k, rd, [('inc', cnt)] + body))
+            else:
+                self.nloop += 1
+                tg = 'i%d' % self.nloop
+                k = self.key()
+                body, _ = self.block(defined | {tg}, depth + 1, budget)
+                if not body:
+                    body = [('asg', self.key(), [tg], 'y')]
+                out.append(('for', k, tg, body))
+        return out, defined
+
+
+def _pg_live(block, O):
+    """structural liveness + loop annotations: -> (annotated block, live-in)"""
+    ann = []
+    live = set(O)
+    for st in reversed(block):
+        kind = st[0]
+        if kind == 'asg':
+            live = set(st[2]) | (live - {st[3]})
+            ann.append(st)
+        elif kind == 'const':
+            live = live - {st[1]}
+            ann.append(st)
+        elif kind == 'inc':
+            live = live | {st[1]}
+            ann.append(st)
+        elif kind == 'if':
+            a1, l1 = _pg_live(st[3], live)
+            a2, l2 = _pg_live(st[4], live)
+            ann.append(('if', st[1], st[2], a1, a2))
+            live = set(st[2]) | l1 | l2
+        elif kind == 'while':
+            tu = {st[1]} | set(st[4])
+            L = set()
+            while True:
+                ab, lb = _pg_live(st[5], L)
+                new = tu | live | lb | L
+                if new == L:
+                    break
+                L = new
+            ann.append(('while', st[1], st[2], st[3], st[4], ab, sorted(L)))
+            live = L
+        else:
+            L = set()
+            while True:
+                ab, lb = _pg_live(st[3], L)
+                new = live | (lb - {st[2]}) | L
+                if new == L:
+                    break
+                L = new
+            ann.append(('for', st[1], st[2], ab, sorted(L)))
+            live = L
+    ann.reverse()
+    return ann, live
+
+
+def _pg_py(block, ind):
+    out = []
+    pad = '    ' * ind
+    for st in block:
+        kind = st[0]
+        if kind == 'asg':
+            out.append('%s%s = T(%s)' % (pad, st[3], ', '.join([str(st[1])] + st[2])))
+        elif kind == 'const':
+            out.append('%s%s = %d' % (pad, st[1], st[2]))
+        elif kind == 'inc':
+            out.append('%s%s += 1' % (pad, st[1]))
+        elif kind == 'if':
+            out.append('%sif P(%s):' % (pad, ', '.join([str(st[1])] + st[2])))
+            out += _pg_py(st[3], ind + 1)
+            if st[4]:
+                out.append('%selse:' % pad)
+                out += _pg_py(st[4], ind + 1)
+        elif kind == 'while':
+            out.append('%swhile %s < %d and P(%s):' % (pad, st[1], st[2], ', '.join([str(st[3])] + st[4])))
+            out += _pg_py(st[5], ind + 1)
+        else:
+            out.append('%sfor %s in R(%d):' % (pad, st[2], st[1]))
+            out += _pg_py(st[3], ind + 1)
+    return out
+
+
+def _pg_coq(block):
+    if not block:
+        return 'CNil'
+    st = block[0]
+    kind = st[0]
+    if kind == 'asg':
+        h = 'CAsg %d %s %s' % (st[1], coq_strs(st[2]), vlib.coq_str(st[3]))
+    elif kind == 'const':
+        h = 'CConst %s %d' % (vlib.coq_str(st[1]), st[2])
+    elif kind == 'inc':
+        h = 'CInc %s' % vlib.coq_str(st[1])
+    elif kind == 'if':
+        h = 'CIf (TP %d %s) (%s) (%s)' % (st[1], coq_strs(st[2]), _pg_coq(st[3]), _pg_coq(st[4]))
+    elif kind == 'while':
+        h = 'CWhile %s (TBound %s %d %d %s) (%s)' % (coq_strs(st[6]), vlib.coq_str(st[1]), st[2], st[3], coq_strs(st[4]), _pg_coq(st[5]))
+    else:
+        h = 'CFor %s %d %s (%s)' % (coq_strs(st[4]), st[1], vlib.coq_str(st[2]), _pg_coq(st[3]))
+    return 'CCons (%s) (%s)' % (h, _pg_coq(block[1:]))
+
+
+def program_tie(run, rnd, n):
+    """whole-program correspondence: random jump-free nested programs are converted by the real pipeline with the tracing backend
+    injected and run; the Coq model (structural liveness, generated selection formulas, protocol model, both interpreters of
+    Ctrl/TracingProgExec.v) must pass its own checker on the same program and return the same values"""
+    from malt.impl import api
+    progs_, srcs = [], []
+    for j in range(n):
+        g = _PG(rnd)
+        body, defined = g.block({'a', 'b', 'c'}, 0, [rnd.randint(3, 9)])
+        ret = sorted(rnd.sample(sorted(defined), rnd.randint(1, min(3, len(defined)))))
+        ann, _ = _pg_live(body, set(ret))
+        src = '\n'.join(['def f(a, b, c):'] + _pg_py(body, 1) + ['    return (%s,)' % ', '.join(ret)]) + '\n'
+        progs_.append((ann, ret))
+        srcs.append(src)
+    old = api._TRANSPILER
+    api._TRANSPILER = make_transpiler()
+    cases, skipped = [], 0
+    try:
+        mod = convrun.load_module(srcs)
+        mod.__dict__.update(pure_world_globals())
+        for i, src in enumerate(srcs):
+            f = getattr(mod, 'f%d' % i)
+            try:
+                with warnings.catch_warnings():
+                    warnings.simplefilter('ignore')
+                    with vlib.time_limit(60):
+                        gfn = api.to_graph(f, recursive=False)
+                res = gfn(1, 2, 3)
+                nat = f(1, 2, 3)
+            except (NameError, UnboundLocalError):
+                skipped += 1         # the known findings about unbound state variables under a tracing backend: the oracle's business
+                continue
+            if nat != res:
+                skipped += 1         # original and converted differ: reported by the oracle below with its own classification
+                continue
+            ann, ret = progs_[i]
+            cases.append((src, '(%d%%nat, 1, 2, 3, %s, %s, %s)' % (i, _pg_coq(ann), coq_strs(ret), coq_nats(res))))
+    finally:
+        api._TRANSPILER = old
+        convrun.cleanup()
+    body = ['From Coq Require Import List String Bool Arith NArith.', 'Import ListNotations.',
+            'Require Import MV.Ctrl.BlockSyntax MV.Generated.C02_gen MV.Ctrl.BlockVars MV.Ctrl.Tracing MV.Ctrl.TracingProg MV.Ctrl.TracingProgExec.',
+            'Local Open Scope string_scope.', 'Local Open Scope N_scope.',
+            'Definition cases : list (nat * N * N * N * cblock * list name * list N) := [', ';\n'.join(c for _, c in cases), '].',
+            'Definition okc (c : nat * N * N * N * cblock * list name * list N) : bool :=',
+            '  match c with (_, a, b, c0, p, ret, e) => pcase_ok 400 a b c0 p ret e end.',
+            'Eval vm_compute in map (fun c => match c with (i, _, _, _, _, _, _) => i end) (filter (fun c => negb (okc c)) cases).']
+    rc, out = vlib.coq_eval('C02', 'programs', '\n'.join(body), timeout=900)
+    bad = vlib.parse_coq_list_of_nat(out) if rc == 0 else None
+    run.extra['whole_program_cases'] = len(cases)
+    run.extra['whole_program_skipped'] = skipped
+    run.count(len(cases))
+    if bad is None:
+        return 'evaluation of the whole-program tracing model failed: ' + out[-400:]
+    if bad:
+        return ('the Coq whole-program tracing model (checker, tracing interpreter or native interpreter) and the real pipeline '
+                'disagree on:\n' + srcs[bad[0]])
+    return None
+
+
 def make_transpiler():
     from malt.impl import api
     import importlib.util
@@ -567,6 +778,10 @@ def check(run):
     if tie_ok and not corr_bad:
         vlib.coq_make(['Ctrl/TracingCheck.vo'])
         corr_bad = protocol_tie(run, rnd, 300 if quick else 3000)
+    # (a'') whole programs: real pipeline + injected backend vs the Coq model of the program-level theorem
+    if tie_ok and not corr_bad:
+        vlib.coq_make(['Ctrl/TracingProgExec.vo'])
+        corr_bad = program_tie(run, rnd, 120 if quick else 1200)
     # (b) tracing backend oracle
     from malt.impl import api
     failures = []
